@@ -14,28 +14,73 @@ package integrate
 //@   valid idx(xIndex, inputZoom) && idx(yIndex, inputZoom)
 //@   ensures [in] outputZoom >= inputZoom && idx(xIndex, inputZoom) && idx(yIndex, inputZoom) ==> r0 == xIndex * pow2(outputZoom - inputZoom) && r2 == (xIndex + 1) * pow2(outputZoom - inputZoom) - 1 && r1 == yIndex * pow2(outputZoom - inputZoom) && r3 == (yIndex + 1) * pow2(outputZoom - inputZoom) - 1
 //@   ensures [out] outputZoom < inputZoom && idx(xIndex, inputZoom) && idx(yIndex, inputZoom) ==> r0 == anc(xIndex, inputZoom - outputZoom) && r2 == r0 && r1 == anc(yIndex, inputZoom - outputZoom) && r3 == r1
+//@   ensures [one-when-not-finer] outputZoom <= inputZoom ==> r0 == r2 && r1 == r3
 //@   ensures [range] idx(xIndex, inputZoom) && idx(yIndex, inputZoom) ==> idx(r0, outputZoom) && idx(r2, outputZoom) && idx(r1, outputZoom) && idx(r3, outputZoom) && r0 <= r2 && r1 <= r3
 //@ end
 
 //@ func VerticalZoom
-//@   props C03 C09 C10 C11 C05
+//@   pure
+//@   props C03 C09 C10 C11 C05 C13
 //@   split inputZoom 0..35
 //@   split outputZoom 0..35
 //@   valid vidx(vIndex, inputZoom)
 //@   ensures [in] outputZoom >= inputZoom && vidx(vIndex, inputZoom) ==> len(r0) == pow2(outputZoom - inputZoom) && (forall k :: 0 <= k && k < len(r0) ==> r0[k] == vid(outputZoom, vIndex * pow2(outputZoom - inputZoom) + k))
 //@   ensures [out] outputZoom < inputZoom && vidx(vIndex, inputZoom) ==> len(r0) == 1 && r0[0] == vid(outputZoom, anc(vIndex, inputZoom - outputZoom))
+//@   ensures [one-when-not-finer] outputZoom <= inputZoom ==> len(r0) == 1
+//@   ensures [shape] forall k :: 0 <= k && k < len(r0) ==> nf(r0[k]) == 2 && fld(r0[k], 0) == num(outputZoom) && isnum(fld(r0[k], 1))
+//@   loop 0 invariant [one] outputZoom <= inputZoom ==> maxVparam == minVparam && len(verticalIDs) == v - minVparam && minVparam <= v && v <= maxVparam + 1
+//@   loop 0 invariant forall k :: 0 <= k && k < len(verticalIDs) ==> nf(verticalIDs[k]) == 2 && fld(verticalIDs[k], 0) == num(outputZoom) && isnum(fld(verticalIDs[k], 1))
 //@   loop 0 invariant vidx(vIndex, inputZoom) ==> minVparam <= v && v <= maxVparam + 1 && len(verticalIDs) == v - minVparam && (forall k :: 0 <= k && k < len(verticalIDs) ==> verticalIDs[k] == vid(outputZoom, minVparam + k))
 //@ end
 
 //@ define zw(zin, zout) = ite(zout >= zin, pow2(zout - zin), 1)
 
 //@ func HorizontalZoom
-//@   props C03 C10 C11
+//@   pure
+//@   props C03 C10 C11 C05 C09
 //@   split inputZoom 0..35
 //@   split outputZoom 0..35
 //@   valid idx(xIndex, inputZoom) && idx(yIndex, inputZoom)
 //@   ensures [in] outputZoom >= inputZoom && idx(xIndex, inputZoom) && idx(yIndex, inputZoom) ==> len(r0) == pow2(outputZoom - inputZoom) * pow2(outputZoom - inputZoom) && (forall k :: 0 <= k && k < len(r0) ==> r0[k] == hid(outputZoom, xIndex * pow2(outputZoom - inputZoom) + fmod(k, pow2(outputZoom - inputZoom)), yIndex * pow2(outputZoom - inputZoom) + fdiv(k, pow2(outputZoom - inputZoom))))
 //@   ensures [out] outputZoom < inputZoom && idx(xIndex, inputZoom) && idx(yIndex, inputZoom) ==> len(r0) == 1 && r0[0] == hid(outputZoom, anc(xIndex, inputZoom - outputZoom), anc(yIndex, inputZoom - outputZoom))
+//@   ensures [one-when-not-finer] outputZoom <= inputZoom ==> len(r0) == 1
+//@   ensures [shape] forall k :: 0 <= k && k < len(r0) ==> nf(r0[k]) == 3 && fld(r0[k], 0) == num(outputZoom) && isnum(fld(r0[k], 1)) && isnum(fld(r0[k], 2))
+//@   loop 0 invariant [one] outputZoom <= inputZoom ==> maxXparam == minXparam && maxYparam == minYparam && len(horizontalIDs) == y - minYparam && minYparam <= y && y <= maxYparam + 1
+//@   loop 1 invariant [one] outputZoom <= inputZoom ==> maxXparam == minXparam && maxYparam == minYparam && y == minYparam && len(horizontalIDs) == x - minXparam && minXparam <= x && x <= maxXparam + 1
+//@   loop 0 invariant forall k :: 0 <= k && k < len(horizontalIDs) ==> nf(horizontalIDs[k]) == 3 && fld(horizontalIDs[k], 0) == num(outputZoom) && isnum(fld(horizontalIDs[k], 1)) && isnum(fld(horizontalIDs[k], 2))
+//@   loop 1 invariant forall k :: 0 <= k && k < len(horizontalIDs) ==> nf(horizontalIDs[k]) == 3 && fld(horizontalIDs[k], 0) == num(outputZoom) && isnum(fld(horizontalIDs[k], 1)) && isnum(fld(horizontalIDs[k], 2))
 //@   loop 0 invariant idx(xIndex, inputZoom) && idx(yIndex, inputZoom) ==> minYparam <= y && y <= maxYparam + 1 && len(horizontalIDs) == (y - minYparam) * zw(inputZoom, outputZoom) && (forall k :: 0 <= k && k < len(horizontalIDs) ==> horizontalIDs[k] == hid(outputZoom, minXparam + fmod(k, zw(inputZoom, outputZoom)), minYparam + fdiv(k, zw(inputZoom, outputZoom))))
 //@   loop 1 invariant idx(xIndex, inputZoom) && idx(yIndex, inputZoom) ==> minYparam <= y && y <= maxYparam && minXparam <= x && x <= maxXparam + 1 && len(horizontalIDs) == (y - minYparam) * zw(inputZoom, outputZoom) + (x - minXparam) && (forall k :: 0 <= k && k < len(horizontalIDs) ==> horizontalIDs[k] == hid(outputZoom, minXparam + fmod(k, zw(inputZoom, outputZoom)), minYparam + fdiv(k, zw(inputZoom, outputZoom))))
+//@ end
+
+//@ -- C03 list level: the result is the de-duplicated union, over the input IDs, of the cross product of the
+//@ -- per-axis results (whose arithmetic meaning is given by the contracts of HorizontalZoom / VerticalZoom).
+//@ define hzs(id: str, h) = HorizontalZoom(val(fld(id, 0)), val(fld(id, 1)), val(fld(id, 2)), h)
+//@ define vzs(id: str, v) = VerticalZoom(val(fld(id, 3)), val(fld(id, 4)), v)
+//@ define cross(e: str, id: str, h, v) = exists a, b :: 0 <= a && a < len(hzs(id, h)) && 0 <= b && b < len(vzs(id, v)) && e == join(hzs(id, h)[a], vzs(id, v)[b])
+//@ define zoomsok(id: str) = isext(id) && 0 <= val(fld(id, 0)) && val(fld(id, 0)) <= 35 && 0 <= val(fld(id, 3)) && val(fld(id, 3)) <= 35
+
+//@ -- The set-level characterisation (result = de-duplicated union of the per-ID cross products) was written
+//@ -- with three nested quantified invariants and is NOT discharged by the solvers (time-outs); see DESIGN.md.
+//@ func ChangeExtendedSpatialIdsZoom
+//@   props C03 C05 C09 C16 C15
+//@   nooverflow
+//@   requires forall k :: 0 <= k && k < len(extendedSpatialIds) ==> (isext(extendedSpatialIds[k]) ==> zoomsok(extendedSpatialIds[k]))
+//@   ensures [err-zoom] !(0 <= hZoom && hZoom <= 35 && 0 <= vZoom && vZoom <= 35) ==> r1 != nil && len(r0) == 0
+//@   ensures [err-malformed] (exists k :: 0 <= k && k < len(extendedSpatialIds) && !isext(extendedSpatialIds[k])) ==> r1 != nil
+//@   ensures [ok] (0 <= hZoom && hZoom <= 35 && 0 <= vZoom && vZoom <= 35) && (forall k :: 0 <= k && k < len(extendedSpatialIds) ==> isext(extendedSpatialIds[k])) ==> r1 == nil
+//@   ensures [nodup] r1 == nil ==> nodup(r0)
+//@   loop 0 invariant [wf] forall k :: 0 <= k && k < $i ==> isext(extendedSpatialIds[k])
+//@ end
+
+//@ -- one valid ID, target zooms not finer than its own: the single ancestor (used by the overlap check)
+//@ case ChangeExtendedSpatialIdsZoom single-zoom-out
+//@   loop 0 unroll 1
+//@   loop 1 unroll 1
+//@   loop 2 unroll 1
+//@   requires len(extendedSpatialIds) == 1 && isext(extendedSpatialIds[0])
+//@   requires 0 <= hZoom && hZoom <= val(fld(extendedSpatialIds[0], 0)) && val(fld(extendedSpatialIds[0], 0)) <= 35 && 0 <= vZoom && vZoom <= val(fld(extendedSpatialIds[0], 3)) && val(fld(extendedSpatialIds[0], 3)) <= 35
+//@   ensures [no-error] r1 == nil
+//@   ensures [one] len(r0) == 1
+//@   ensures [ancestor] idx(val(fld(extendedSpatialIds[0], 1)), val(fld(extendedSpatialIds[0], 0))) && idx(val(fld(extendedSpatialIds[0], 2)), val(fld(extendedSpatialIds[0], 0))) && vidx(val(fld(extendedSpatialIds[0], 4)), val(fld(extendedSpatialIds[0], 3))) ==> r0[0] == ext(hZoom, anc(val(fld(extendedSpatialIds[0], 1)), val(fld(extendedSpatialIds[0], 0)) - hZoom), anc(val(fld(extendedSpatialIds[0], 2)), val(fld(extendedSpatialIds[0], 0)) - hZoom), vZoom, anc(val(fld(extendedSpatialIds[0], 4)), val(fld(extendedSpatialIds[0], 3)) - vZoom))
 //@ end
